@@ -6,8 +6,8 @@
 #![allow(unused, dead_code, unused_mut, static_mut_refs, non_snake_case, non_camel_case_types)]
 pub const CAP: usize = 24;
 #[macro_use] #[path = "../../prelude/macros.rs"] mod pmacros;
-include!("../../prelude/vec.rs");
-impl<'a> From<&'a [u8]> for Vec<u8> { fn from(s: &'a [u8]) -> Self { let mut v = Vec::new(); v.extend_from_slice(s); v } }
+include!("../../prelude/vec_bulk.rs");
+impl<'a> From<&'a [u8]> for Vec<u8> { fn from(s: &'a [u8]) -> Self { Vec::from_long(s) } }
 impl AsRef<[u8]> for Vec<u8> { fn as_ref(&self) -> &[u8] { &self.buf[..self.len] } }
 pub trait MConcat { fn mconcat(&self) -> Vec<u8>; }
 impl<'a, const N: usize> MConcat for [&'a [u8]; N] { fn mconcat(&self) -> Vec<u8> { let mut v = Vec::new(); let mut i = 0; while i < N { v.extend_from_slice(self[i]); i += 1; } v } }
@@ -50,8 +50,11 @@ impl Transaction {
 pub mod packed { pub use super::{Byte32, Script, Transaction}; pub struct Byte32Reader; impl Byte32Reader { pub fn from_slice_should_be_ok(s: &[u8]) -> super::Byte32 { assert!(s.len() == 1, "REAL-PANIC: stored hash does not decode"); super::Byte32(s[0]) } } }
 
 // ---- the store --------------------------------------------------------------------------------------------------------------------
-#[cfg(not(rb_small))] pub const NROWS: usize = 3;
+#[cfg(not(any(rb_small, rb_tiny)))] pub const NROWS: usize = 3;
 #[cfg(rb_small)] pub const NROWS: usize = 2;
+#[cfg(rb_tiny)] pub const NROWS: usize = 1;
+#[cfg(rb_tiny)] pub const MAXS: usize = 1;
+#[cfg(not(rb_tiny))] pub const MAXS: usize = 2;
 pub const VCAP: usize = 13;
 #[derive(Clone, Copy)] pub struct ValB { pub b: [u8; VCAP], pub len: usize }
 impl std::ops::Deref for ValB { type Target = [u8]; fn deref(&self) -> &[u8] { &self.b[..self.len] } }
@@ -60,7 +63,7 @@ impl ValB { pub fn of(s: &[u8]) -> ValB { let mut b = [0u8; VCAP]; b[..s.len()].
 pub struct World { pub rows: [Row; NROWS], pub nrows: usize, pub txs: [TxModel; NTX], pub tx_stored: [bool; NTX], pub tx_number: [u64; NTX], pub tx_index: [u32; NTX],
                    pub scripts: [ScriptStatus; 2], pub nscripts: usize, pub min_filtered: u64 }
 pub static mut WORLD: Option<World> = None;
-fn words(v: &Vec<u8>) -> (u128, u64) { let mut a = [0u8; 16]; a.copy_from_slice(&v.buf[0..16]); let mut b = [0u8; 8]; b.copy_from_slice(&v.buf[16..24]); (u128::from_be_bytes(a), u64::from_be_bytes(b)) }
+pub fn words(v: &Vec<u8>) -> (u128, u64) { let mut a = [0u8; 16]; a.copy_from_slice(&v.buf[0..16]); let mut b = [0u8; 8]; b.copy_from_slice(&v.buf[16..24]); (u128::from_be_bytes(a), u64::from_be_bytes(b)) }
 pub fn key_lt(a: &Vec<u8>, b: &Vec<u8>) -> bool { let (a0, a1) = words(a); let (b0, b1) = words(b); a0 < b0 || (a0 == b0 && (a1 < b1 || (a1 == b1 && a.len < b.len))) }
 pub fn padded(v: &Vec<u8>) -> Vec<u8> { let mut o = Vec::new(); let mut i = 0; while i < CAP { o.buf[i] = if i < v.len { v.buf[i] } else { 0 }; i += 1; } o.len = v.len; o }
 pub enum Direction { Forward, Reverse }
@@ -103,13 +106,14 @@ impl Db {
 }
 // ---- write batch: ordered log -----------------------------------------------------------------------------------------------------
 pub const OPS: usize = 12;
-#[derive(Clone, Copy)] pub struct Op { pub put: bool, pub k: Vec<u8>, pub v: [u8; 8], pub vlen: usize }
+/// key kept as two big-endian words + length (zero padded), value as one little-endian word + length: the harness compares integers, not byte strings
+#[derive(Clone, Copy)] pub struct Op { pub put: bool, pub k0: u128, pub k1: u64, pub klen: usize, pub v: u64, pub vlen: usize }
 pub struct Batch { pub ops: [Op; OPS], pub n: usize }
 pub static mut COMMITTED: Option<Batch> = None;
 pub static mut COMMITS: usize = 0;
 impl Batch {
-    pub fn new() -> Batch { Batch { ops: [Op { put: false, k: Vec { buf: [0; CAP], len: 0 }, v: [0; 8], vlen: 0 }; OPS], n: 0 } }
-    fn add(&mut self, put: bool, k: &[u8], v: &[u8]) { assert!(self.n < OPS, "MODEL-BOUND: batch capacity"); assert!(v.len() <= 8, "MODEL-BOUND: value capacity"); let mut val = [0u8; 8]; val[..v.len()].copy_from_slice(v); self.ops[self.n] = Op { put, k: padded(&Vec::from(k)), v: val, vlen: v.len() }; self.n += 1; }
+    pub fn new() -> Batch { Batch { ops: [Op { put: false, k0: 0, k1: 0, klen: 0, v: 0, vlen: 0 }; OPS], n: 0 } }
+    fn add(&mut self, put: bool, k: &[u8], v: &[u8]) { assert!(self.n < OPS, "MODEL-BOUND: batch capacity"); assert!(v.len() <= 8, "MODEL-BOUND: value capacity"); let mut val = [0u8; 8]; val[..v.len()].copy_from_slice(v); let kk = padded(&Vec::from(k)); let (k0, k1) = words(&kk); self.ops[self.n] = Op { put, k0, k1, klen: kk.len, v: u64::from_le_bytes(val), vlen: v.len() }; self.n += 1; }
     pub fn put_kv<K: Into<Vec<u8>>, V: Into<Vec<u8>>>(&mut self, key: K, value: V) -> Result<(), ()> { let k: Vec<u8> = key.into(); let v: Vec<u8> = value.into(); self.add(true, &k, &v); Ok(()) }
     pub fn put<K: AsRef<[u8]>, V: AsRef<[u8]>>(&mut self, key: K, value: V) -> Result<(), ()> { self.add(true, key.as_ref(), value.as_ref()); Ok(()) }
     pub fn delete<K: AsRef<[u8]>>(&mut self, key: K) -> Result<(), ()> { self.add(false, key.as_ref(), &[]); Ok(()) }
@@ -135,7 +139,7 @@ impl Storage {
 
 include!("extracted.rs");
 include!("../../prelude/kani_shim.rs");
-#[cfg(test)] mod fuzz { #[test] fn fuzz_rollback() { let (ok, bad) = super::kani::fuzz(3_000_000, || super::harness::rollback_step(false)); eprintln!("valid samples {} failures {:?}", ok, bad); let (ok2, bad2) = super::kani::fuzz(3_000_000, || super::harness::rollback_step(true)); eprintln!("prefix-related: valid samples {} failures {:?}", ok2, bad2); } }
+#[cfg(test)] mod fuzz { #[test] fn fuzz_rollback() { let (ok, bad) = super::kani::fuzz(2_000_000, super::harness::rollback_any_body); eprintln!("valid samples {} failures {:?}", ok, bad); let (ok2, bad2) = super::kani::fuzz(2_000_000, super::harness::rollback_prefix_body); eprintln!("prefix-related: valid samples {} failures {:?}", ok2, bad2); assert!(bad.is_empty() && bad2.is_empty() && ok > 1000 && ok2 > 1000); } }
 
 #[cfg(any(kani, test))]
 mod harness;
